@@ -12,7 +12,6 @@ package zerolog
 //@ spec valueok(b bytes) bool = lex(b) == 0 && valuepos(mode(b))
 //@ spec emitsvalue(res bytes, dst bytes) bool = lex(res) == 0 && mode(res) == aftervalue(mode(dst)) && stk(res) == stk(dst) && len(res) > len(dst) && res[len(res)-1] != '{' && prefix(res, dst)
 //@ spec wholevalue(b bytes) bool = lex(b) == 0 && mode(b) == DONE && stk(b) == 1 && len(b) >= 1 && b[len(b)-1] != '{'
-//@ spec instring(res bytes, dst bytes) bool = lex(res) == 1 && mode(res) == mode(dst) && stk(res) == stk(dst) && prefix(res, dst) && len(res) >= len(dst)
 //@ spec firstbyte(b bytes) bool = b[0] == '{'
 //@ spec eventdone(b bytes) bool = lex(b) == 0 && mode(b) == DONE_NL && stk(b) == STK_EMPTY
 //@ spec framebytes() int = 2
